@@ -220,7 +220,7 @@ def run_scope_case(ctx, ops: list[str], work: Path, clears: bool = False) -> tup
             ctx.violation("durable sequences not strictly increasing", "sequence-not-increasing", {"ops": ops, "durable": dur})
         durset = set(dur)
         pubs = [(t, s) for t, s, _ in rig.published]
-        if not swallowed_pattern(ops):
+        if clears or not swallowed_pattern(ops):
             if any(p not in durset for p in pubs):
                 ctx.violation("a published event is not durable", "published-not-durable", {"ops": ops, "published": pubs, "durable": dur})
             if [s for _, s in pubs] != sorted(s for _, s in pubs) or len(set(pubs)) != len(pubs):
@@ -549,6 +549,8 @@ def _replay_body(ctx, r: dict, work: Path) -> None:
     if "ops" in r:
         line, out = run_scope_case(ctx, r["ops"], work, clears_flag(ctx))
         ctx.correspond("txnscope-ops", [r["ops"]], [line], [out])
+    elif r.get("suite") == "engine-crash" and r.get("crash_at") == "all":
+        crash_suite(ctx, [r["spec"]], work)
     elif r.get("suite") == "engine-crash":
         from harness.evsrc import CTL, Crash, Env
 
